@@ -22,9 +22,9 @@ CHECKS = {
     note="bounded configurations; virtual time: timeouts only run out at quiescence; the known hand-off stall is listed in known_findings.json"),
  "C10": dict(
     spec="RpycLifetime", design="5/C10",
-    technique="TLA+ spec RpycLifetime (owner table counts, proxy counts, two FIFO streams) model-checked by TLC with the Accounting invariant; transition-cover and random histories executed on two real Connections with frame-by-frame manual delivery, compared state by state and trace-validated by TLC; reference-count and identity oracles",
+    technique="TLA+ specs RpycLifetime (owner table counts, proxy counts, two FIFO streams) and RpycLifetimeInspect (objects of user classes: unboxing suspended in a nested INSPECT round trip that serves further references, several proxy objects per key) model-checked by TLC with the Accounting invariant; transition-cover and random histories executed on two real Connections with frame-by-frame manual delivery, compared state by state and trace-validated by TLC; reference-count and identity oracles",
     text="TLC exhausts all interleavings of send / send-in-tuple / request / drop / pass-back / deliver-either-stream / close for 2 objects and proves Accounting, Safety, LeakFree; the same histories are executed on a real connection pair whose two directions are released frame by frame, with the owner's table, the holder's proxy counts and the decoded frames in flight compared with the TLC state after every step, and longer random histories are validated against the spec by TLC",
-    note="bounded model (2 objects, 3 boxings, streams of 3); lent objects are lists (built-in netref classes: no nested INSPECT during delivery); CPython refcounting with automatic GC disabled"),
+    note="bounded model (2 objects, 3 boxings, streams of 3); lent objects are lists (built-in netref classes, RpycLifetime) and instances of a user class (nested INSPECT during delivery, RpycLifetimeInspect); CPython refcounting with automatic GC disabled"),
  "C08": dict(
     spec="RpycLedger", design="5/C08",
     technique="TLA+ spec RpycLedger (two peers, request/reply/exception frames, re-entrant serve with unwinding) model-checked by TLC; transition-cover and random request histories executed on two real Connections with frame-by-frame delivery, compared with the TLC state and trace-validated by TLC; frame-level ledger oracle over all traffic",
@@ -97,12 +97,12 @@ CHECKS = {
         note="finite operation vocabulary; operands are small ints, tuples, bytes, frozensets; the twin is a second oracle for the specification's Python semantics (disagreement = machinery failure); one genuine defect (PEP 688 __buffer__ forwarded by netrefs on Python 3.12) repaired by a fix: commit"),
     "C16": dict(
         spec="RpycServer", design="5/C16",
-        technique="TLA+ spec RpycServer (accept, authenticate, serve, misbehaving clients, close) model-checked by TLC; state-graph paths replayed against real ThreadedServer / ThreadPoolServer / OneShotServer over real TCP and unix sockets (with and without authenticator) plus a ForkingServer probe in a child process; every good client's per-connection counter, service instance and exported object are compared with the specification after every bad client",
+        technique="TLA+ spec RpycServer (accept, authenticate, serve, misbehaving clients, close) model-checked by TLC; state-graph paths replayed against real ThreadedServer / ThreadPoolServer / OneShotServer over real TCP and unix sockets (with and without authenticator) plus a ForkingServer probe in a child process; every good client's per-connection counter, service instance, credentials and exported object are compared with the specification after every bad client; TLA+ spec RpycServerSteps (accept loop, serving threads and close() as separate steps) model-checked, its schedules forced on the real server threads at statement granularity with sys.monitoring breakpoints (one thread held in a window while another client connects, calls or leaves)",
         text="TLC exhausts 2 good clients x bad clients of 8 kinds x server close; transition-cover paths are executed on the real servers: after any misbehaving client (random bytes, truncated packet, absurd length, corrupt compressed data, garbage payload, connect-and-leave, failed authentication, half a header) every good client's next call must return its own counter, a new good client must be accepted and served, no object exported to one connection is reachable from another",
         note="real sockets and threads, conditions awaited with deadlines; stalled clients stay below the pool size"),
     "C17": dict(
         spec="RpycServer", design="5/C17",
-        technique="TLA+ spec RpycServer model-checked by TLC; state-graph paths replayed against real ThreadedServer / ThreadPoolServer / OneShotServer over real TCP and unix sockets (with and without authenticator) and a ForkingServer probe in a child process; oracles: EOF-not-timeout for every client after close, on_disconnect exactly once per connection, empty tracked tables, listener closed, file-descriptor and thread accounting back to the baseline",
+        technique="TLA+ spec RpycServer model-checked by TLC; state-graph paths replayed against real ThreadedServer / ThreadPoolServer / OneShotServer over real TCP and unix sockets (with and without authenticator) and a ForkingServer probe in a child process; oracles: EOF-not-timeout for every client after close, on_disconnect exactly once per connection, empty tracked tables and poll registrations, listener closed, file-descriptor accounting back to the baseline; TLA+ spec RpycServerSteps (accept loop, serving threads and close() as separate steps; pinned and repaired accept) model-checked incl. liveness, TLC's counterexample and every statement-level window of accept / serve / drop / close executed on the real server threads with sys.monitoring breakpoints while close() runs inside the window",
         text="TLC exhausts connect / call / leave (graceful or reset) / misbehave / close interleavings; transition-cover paths are executed on the real servers: after close() returns every connected client's next operation ends in EOF, never a timeout; each connection's on_disconnect ran exactly once; the server's tables are empty; descriptors and threads return to the baseline",
         note="real sockets and threads, conditions awaited with deadlines; one genuine defect (ThreadPoolServer.close) repaired by a fix: commit, two ForkingServer defects recorded as known findings"),
 }
